@@ -7,7 +7,7 @@ for d in ${LIST:-"$root"/c*/[a-z]}; do
   id=$(python3 -c "import json,sys;m=json.load(open('$d/meta.json'));print(m['property']+'-'+m.get('variant','a'))")
   if [ -z "$FORCE" ] && [ -f "/verif/seeded/$id/meta.json" ]; then continue; fi
   echo "=== $id $(date +%T)" >> "$root/batch.log"
-  python3 /verif/seedtest.py "$d" $SEEDARGS > "$root/$id.out" 2>&1
+  timeout 1500 python3 /verif/seedtest.py "$d" $SEEDARGS > "$root/$id.out" 2>&1; git -C /repo checkout -- . 2>/dev/null
   python3 - "$id" >> "$root/batch.log" <<'P'
 import json,sys
 m=json.load(open('/verif/seeded/%s/meta.json'%sys.argv[1]))
